@@ -434,6 +434,9 @@ class Ctx:
         """.vo targets the Props file needs (its `Require` lines)."""
         with open(os.path.join(COQ, props_file)) as f:
             txt = f.read()
+        return self._deps_text(txt)
+
+    def _deps_text(self, txt):
         deps = []
         for m in re.finditer(r"PV\.(\w+)\.(\w+)", txt):
             t = f"{m.group(1)}/{m.group(2)}.vo"
@@ -483,6 +486,21 @@ class Ctx:
                     timeout=900, case_type=None):
         """Evaluate `check_fn : case -> bool` on every term inside Coq;
         return indices (into case_terms) where it is false; None on error."""
+        # the libraries the header imports must be current (a model file may
+        # have changed since the last full build)
+        hdeps = self._deps_text(header)
+        if hdeps:
+            lock = coq_lock()
+            try:
+                ok, out = coq_make(hdeps, timeout=timeout)
+            finally:
+                fcntl.flock(lock, fcntl.LOCK_UN)
+                lock.close()
+            if not ok:
+                self.c_broken.append("model build failed: "
+                                     + _first_error(out))
+                self.log("coq_make_header", out)
+                return None
         jobs = []
         for k in range(0, len(case_terms), chunk):
             part = case_terms[k:k + chunk]
